@@ -65,9 +65,10 @@ func writeIfChanged(path string, content []byte) error {
 }
 
 // emitTable renders a table of fixed-width entries as Lean definitions:
-//   def <name>_<k> : Nat        chunk k: 256 entries, entry j at bit offset width*j
-//   def <name>Chunk : Nat → Nat  balanced decision tree over k (cheap for the kernel)
-//   def <name>Len : Nat
+//
+//	def <name>_<k> : Nat        chunk k: 256 entries, entry j at bit offset width*j
+//	def <name>Chunk : Nat → Nat  balanced decision tree over k (cheap for the kernel)
+//	def <name>Len : Nat
 func emitTable(sb *strings.Builder, name string, width uint, entries []uint64) {
 	const per = 256
 	nchunks := (len(entries) + per - 1) / per
